@@ -258,8 +258,17 @@ def _run_automaton(func, init, step, edge=None, start=None, start_idx=0, limit=2
             if bid == func.exit:
                 continue
             succs = blk.succs
+            # a comparison of two constants (a parameter of an expanded helper that was handed a literal, compared with another
+            # literal: `State::Rejected == State::Fulfilled`) has one feasible successor only
+            tk = blk.term or {}
+            dead = None
+            if tk.get("cmp") in ("==", "!=") and len(succs) == 2 and tk.get("k") in ("if", "while", "for", "do", "cond", "land", "lor"):
+                lc, rc = (tk.get("lhs") or {}).get("const"), tk.get("rconst")
+                if lc is not None and rc is not None and type(lc) == type(rc):
+                    truth = ((lc == rc) == (tk["cmp"] == "==")) != bool(tk.get("neg"))
+                    dead = 1 if truth else 0
             for k, sid in enumerate(succs):
-                if sid is None:
+                if sid is None or k == dead:
                     continue
                 s2 = s
                 if edge is not None:
@@ -451,3 +460,15 @@ def innermost_loop(func, block_id, loops=None):
     if not cands:
         return None
     return min(cands, key=lambda x: len(x[1]))
+
+
+def feasible_events(func):
+    """the events some path from the entry can reach once branches on comparisons of constants are decided (and local bool flags and
+    helper result codes followed): `id()`s of the event objects"""
+    got = set()
+
+    def step(st, ev):
+        got.add(id(ev))
+        return st
+    run_automaton(func, 0, step)
+    return got
